@@ -180,6 +180,21 @@ def run_job(job, rec):
                 rec.check(abs(cc - ref) <= tol_abs, "cdf-level",
                           lambda: f"{name}: cdf({xx!r}) = {cc!r} but the density integrates to {ref!r} below that point (a tail is clipped?)", ctx)
 
+            # history: the same query array modified in place; repeated calls return the same values
+            xq = np.sort(rng.uniform(x.min(), x.max(), size=5))
+            p1, c1 = guarded(E, xq), guarded(E.cdf, xq)
+            xq += 0.3 * sd
+            p2, c2 = guarded(E, xq), guarded(E.cdf, xq)
+            p3, c3 = guarded(E, xq.copy()), guarded(E.cdf, xq.copy())
+            rec.count("in_place_query_updates")
+            okq = not any(isinstance(v, Raised) for v in (p1, c1, p2, c2, p3, c3)) and np.array_equal(p2, p3) and bool(np.allclose(c2, c3, rtol=0, atol=1e-9)) \
+                and not np.array_equal(np.asarray(p1), np.asarray(p2))
+            rec.check(okq, "stale-after-in-place-update", lambda: f"{name}: evaluating the same query array after modifying it in place gives {p2!r}, a fresh array gives {p3!r}", ctx)
+            i_a, i_b = guarded(E.interval, 0.5), guarded(E.interval, 0.5)
+            m_a, m_b = guarded(E.moments), guarded(E.moments)
+            rec.check(not any(isinstance(v, Raised) for v in (i_a, i_b, m_a, m_b)) and np.allclose(i_a, i_b, rtol=1e-9, atol=0) and np.allclose(m_a, m_b, rtol=1e-12, atol=0),
+                      "repeated-call-differs", lambda: f"{name}: interval / moments differ between two identical calls: {i_a} vs {i_b}; {m_a} vs {m_b}", ctx)
+
             # 3. mode: a point of maximal estimated density
             pm = guarded(E, float(E.mode))
             if isinstance(pm, Raised):
